@@ -272,7 +272,9 @@ impl<'tcx> Cx<'tcx> {
         let did = ldid.to_def_id();
         let (file, line, macs) = loc(tcx, tcx.def_span(did));
         let body = tcx.hir_body_owned_by(ldid);
+        let end_line = tcx.sess.source_map().lookup_char_pos(body.value.span.source_callsite().hi()).line;
         let mut o = O::new()
+            .n("end", end_line as i128)
             .s("fn", &tcx.def_path_str(did))
             .s("dk", &format!("{:?}", dk))
             .s("file", &file)
